@@ -4,7 +4,7 @@ G: DeviationMC (TLC): every dealing column, every coordinate, every non-zero err
    holder's verification equation (the mathematical content of the binding table).
 R: harness/cmd/tamper: the complete single-leaf deviation matrix (CBOR walker; operators bitflip, flipHigh, zero, value of
    another sender / recipient / parallel session, truncate, extend, swap, shorten, drop, replay) on the real participants of
-   session setup, HJKY, redistribution (with/without anchor), Gennaro, Canetti and Lindell22 signing + cosigning aggregation.
+   session setup, HJKY, redistribution (with/without anchor), Gennaro, Canetti, Lindell22 signing + cosigning aggregation, base OT and random VOLE.
 V: TamperTrace (TLC, ProtoCore.tla): no crash/hang, blame only the deviator, honest outputs valid (exact over Z_q), and every
    changed bound leaf is rejected by an honest party (the addressee for a unicast)."""
 import os, json, subprocess
@@ -43,12 +43,16 @@ def key_of(row):
 
 def run(chk):
     binary = vlib.build("tamper")
+    main = "session,hjky,redist,redistAnchor,gennaro,canetti,lindell22"
     if chk.quick:
-        jobs = [("q45971", ["-q", "45971", "-seed", str(chk.seed)]), ("q251", ["-q", "251", "-seed", str(chk.seed + 100), "-stride", "3"])]
+        jobs = [("q45971", ["-q", "45971", "-proto", main, "-seed", str(chk.seed)]),
+                ("q251", ["-q", "251", "-proto", main, "-seed", str(chk.seed + 100), "-stride", "3"]),
+                ("otvole", ["-q", "45971", "-proto", "rvole,ecbbot", "-stride", "20", "-seed", str(chk.seed)])]
     else:
-        jobs = [("q45971-%d" % i, ["-q", "45971", "-seed", str(chk.seed * 10 + i)]) for i in range(4)] + \
-               [("q251-%d" % i, ["-q", "251", "-seed", str(chk.seed * 10 + i)]) for i in range(4)] + \
-               [("q1019-%d" % i, ["-q", "1019", "-seed", str(chk.seed * 10 + i)]) for i in range(2)]
+        jobs = [("q45971-%d" % i, ["-q", "45971", "-proto", main, "-seed", str(chk.seed * 10 + i)]) for i in range(4)] + \
+               [("q251-%d" % i, ["-q", "251", "-proto", main, "-seed", str(chk.seed * 10 + i)]) for i in range(4)] + \
+               [("q1019-%d" % i, ["-q", "1019", "-proto", main, "-seed", str(chk.seed * 10 + i)]) for i in range(2)] + \
+               [("otvole", ["-q", "45971", "-proto", "rvole,ecbbot", "-stride", "3", "-seed", str(chk.seed)])]
     tasks = [("mc", lambda: vlib.tlc(SPEC, "DeviationMC", "DeviationMC.cfg", workers=4, timeout=1800))]
     stats = {"cases": 0, "changed_bound": 0, "by_proto": {}, "leaves": set()}
 
